@@ -1,6 +1,6 @@
 (* C11 -- connection loss is detected, announced once, and fully recovered by reconnect. *)
 From Coq Require Import NArith List Bool Arith.
-From PV Require Import Model.Conn.
+From PV Require Import Generated.Tables Model.Conn Model.ConnSM.
 Import ListNotations.
 
 Fixpoint nats_eqb (a b : list nat) : bool :=
@@ -32,3 +32,70 @@ Fixpoint P11 (cs : list cycle_in) (outs : list cycle_out) : bool :=
   end.
 
 Definition C11_statement : Prop := forall cs, P11 cs (run_conn true cs) = true.
+
+(* ---- the same promise as a monitor over the chronological log of the event-level model (Model/ConnSM.v) ---- *)
+Inductive mphase :=
+| MUp (k m : nat)        (* connected; k of the m devices known at establishment have been told connected=True *)
+| MDown (k n0 : nat)     (* a loss is being announced: k of the n0 devices known at the loss have been told connected=False *)
+| MClosed                (* transport closed: the reconnect routine's attempt is due *)
+| MSleep                 (* an attempt failed: back-off *)
+| MWait                  (* back-off over: the next attempt is due *)
+| MEst.                  (* an attempt succeeded: start-master is due *)
+
+Definition mon_step (st : mphase * nat) (e : lev) : option (mphase * nat) :=
+  let '(ph, n) := st in
+  match e with
+  | LNew => Some (ph, S n)
+  | _ =>
+    match ph, e with
+    | MUp k m, LUp i => if Nat.eqb i k && Nat.ltb k m then Some (MUp (S k) m, n) else None
+    | MUp k m, LDown i =>              (* every known device is told, in order, exactly once; none before all were told True *)
+        if Nat.eqb k m && Nat.eqb i 0 && Nat.ltb 0 n then Some (MDown 1 n, n) else None
+    | MUp k m, LClose => if Nat.eqb k m && Nat.eqb n 0 then Some (MClosed, n) else None
+    | MDown k n0, LDown i => if Nat.eqb i k && Nat.ltb k n0 then Some (MDown (S k) n0, n) else None
+    | MDown k n0, LClose => if Nat.eqb k n0 then Some (MClosed, n) else None      (* closed once, after everybody was told *)
+    | MClosed, LOpen ok | MWait, LOpen ok => Some (if ok then MEst else MSleep, n)   (* one attempt at a time *)
+    | MSleep, LBackoff => Some (MWait, n)                                          (* retried only after the back-off *)
+    | MEst, LStartMaster => Some (MUp 0 n, n)
+    | _, _ => None
+    end
+  end.
+
+Fixpoint mon_run (st : mphase * nat) (l : list lev) : option (mphase * nat) :=
+  match l with
+  | [] => Some st
+  | e :: r => match mon_step st e with Some st' => mon_run st' r | None => None end
+  end.
+
+Definition mon_ok (l : list lev) : bool := match mon_run (MUp 0 0, 0%nat) l with Some _ => true | None => false end.
+
+(* every log of the event-level model is accepted, and the numbers of background tasks and open transports are those of one
+   connection, for ALL sequences of faults, open results, back-off expiries and new devices *)
+Definition stable (s : cst) : Prop :=
+  c_consumers s = N.to_nat consumers_count /\
+  (c_connected s = true -> c_producers s = 1%nat /\ c_transports s = 1%nat /\ c_opening s = false /\ c_sleeping s = false) /\
+  (c_connected s = false -> c_producers s = 0%nat /\ c_transports s = 0%nat /\ c_opening s = negb (c_sleeping s)).
+Definition C11_sm_statement : Prop :=
+  forall evs, let s := crun true true evs in mon_ok (clog s) = true /\ stable s.
+
+(* the per-cycle model is what the event-level model does on the events of one cycle *)
+Fixpoint opens_of (first backoff : bool) (l : list lev) : list (N * bool) :=
+  match l with
+  | [] => []
+  | LOpen ok :: r => ((if first then 0 else if backoff then reconnect_timeout else 0)%N, ok) :: opens_of false false r
+  | LBackoff :: r => opens_of first true r
+  | _ :: r => opens_of first backoff r
+  end.
+Definition cout_of (seg : list lev) (s : cst) : cycle_out :=
+  mkCout (flat_map (fun e => match e with LDown i => [i] | _ => [] end) seg)
+         (length (filter (fun e => match e with LClose => true | _ => false end) seg))
+         (opens_of true false seg)
+         (length (filter (fun e => match e with LStartMaster => true | _ => false end) seg))
+         (flat_map (fun e => match e with LUp i => [i] | _ => [] end) seg)
+         (c_producers s) (c_consumers s).
+Definition connected_with (d : nat) : cst := mkC true 1 (N.to_nat consumers_count) d 1 false false [].
+Definition C11_sm_refines_statement : Prop :=
+  forall d fails,
+    let s := fold_left (cstep true true) (cycle_events fails) (connected_with d) in
+    cout_of (clog s) s = do_cycle true (N.to_nat consumers_count) (mkCin d fails) /\
+    c_connected s = true /\ c_devices s = d.
